@@ -4,6 +4,7 @@ CONSTANTS
   Backs = {"b1", "b2", "b3"}
   BackSeq <- MCBackSeq
   MethodExcluded = TRUE
+  PurgeEvictsLive = FALSE
   MaxOps = 8
 VIEW PropView
 INVARIANTS Sticky PinsAreAnswered
